@@ -112,6 +112,58 @@ func TestC14Differential(t *testing.T) {
 	})
 }
 
+// TestC14Deployments: the differential of TestC14Differential one level up: the same ObjectDeployment history with the
+// templates' objects inline and with some phases of some templates stored in ObjectSlices.
+func TestC14Deployments(t *testing.T) {
+	st := NewStats("C14", "deployments", "each generated ObjectDeployment history (2-5 templates with local/delegated phases; template edits, handover with late or missing readiness, history limit changes, pause, drift, the deployment controller interleaved with the revisions' own controllers; namespaced and cluster-scoped) is executed twice in lock step: with every template inline, and with a random non-empty subset of template phases stored in ObjectSlices owned by the deployment (so revisions mix inline and sliced phases); objects are addressed by creation order, generated revision names are canonicalised; after every step the writes on managed objects and the projected state (managed objects with owners/revision/content; conditions, controllerOf, lifecycle of every revision and phase object) must be identical; non-trivial = a revision with a sliced phase was archived or pruned")
+	run := func(c *diffCase) (map[string]bool, error) {
+		return RunDifferentialDeploy("C14", "sliced-deployment", c.A, c.B)
+	}
+	CheckOrReplay(t, st, func(data []byte) (any, error) {
+		var c diffCase
+		if err := json.Unmarshal(data, &c); err != nil {
+			return nil, err
+		}
+		_, err := run(&c)
+		return &c, err
+	}, func(rt *rapid.T) {
+		opts := SetGenOpts{AllowClass: true, PoolSize: 4, MaxObjs: 3, MaxPhases: 3, CPs: []string{"", "", "", "IfNoController", "None"}}
+		var a *Scenario
+		switch rapid.IntRange(0, 3).Draw(rt, "family") {
+		case 0:
+			a = genC08Handover(rt, opts)
+		case 1:
+			a = genC08Prune(rt, opts)
+		default:
+			a = genDeployWorld(rt, "C14", opts, c09Extra)
+		}
+		a.Prop = "C14"
+		a.CreationOrder = true
+		if rapid.IntRange(0, 4).Draw(rt, "clusterdep") == 0 && !a.ClusterDep {
+			clusterFlavour(a)
+		}
+		b := cloneScenario(a)
+		sliced := false
+		for ti := range b.Tmpls {
+			for pi := range b.Tmpls[ti].Phases {
+				ph := &b.Tmpls[ti].Phases[pi]
+				if len(ph.Objs) > 0 && rapid.IntRange(0, 2).Draw(rt, "slice") == 0 {
+					ph.Sliced = true
+					sliced = true
+				}
+			}
+		}
+		c := &diffCase{Part: "deployments", A: a, B: b}
+		labels, err := run(c)
+		var ll []string
+		for l := range labels {
+			ll = append(ll, l)
+		}
+		st.Case(c, sliced && labels["deployment-template-with-sliced-phase"] && labels["revision-archived-or-pruned"], ll...)
+		st.Report(rt, c, err)
+	})
+}
+
 func TestC14Packages(t *testing.T) {
 	st := NewStats("C14", "packages", "scenario = real Package controller deploying generated valid packages with the EachObject / default chunking strategy over histories of package updates (image and config edits back and forth, so slices are added, dropped and re-created), third parties squatting the names of dropped slices with other content, interleaved with the ObjectDeployment/ObjectSet controllers; oracle = at every ObjectSlice delete the slice is referenced by neither the deployment template nor any existing ObjectSet, slice contents are never rewritten, and the deployment template with slices inlined equals the reference render (so a colliding name is never reused for other content); non-trivial = a slice was deleted or a name squatted")
 	DepName = pkgNames[0]
